@@ -187,7 +187,11 @@ def _valid_buffers():
 BUFFERS = _valid_buffers()
 BOUNDARY32 = [-(2 ** 31), -13, -12, -2, -1, 0, 1, 2 ** 31 - 1]
 BOUNDARY_VARINT = [bytes([0xFF] * 9 + [0x01]), bytes([0xFF] * 10 + [0x01]), bytes([0x80] * 11 + [0x00]),
-                   b"\x01", b"\x00", bytes([0xFE, 0xFF, 0xFF, 0xFF, 0x0F]), bytes([0xFF] * 8 + [0x7F])]
+                   b"\x01", b"\x00", bytes([0xFE, 0xFF, 0xFF, 0xFF, 0x0F]), bytes([0xFF] * 8 + [0x7F]),
+                   bytes([0xFE] + [0xFF] * 7 + [0x7F]),        # +(2^62 - 1): huge positive count / length
+                   bytes([0x80] * 8 + [0x20]),                 # +2^60
+                   bytes([0xFE, 0xFF, 0xFF, 0xFF, 0x7F]),      # +(2^34 - 1)
+                   bytes([0x80, 0x80, 0x80, 0x80, 0x10])]      # +2^31
 
 
 def _decode_all(data):
